@@ -157,11 +157,43 @@ class Guards:
                 it = it[2][0]
                 enum = True
             if enum or "Iterator>::position" in key or cn(x[1]).endswith("Iterator::position"):
-                if it[0] == "call" and cn(it[1]) == "core::slice::windows" and len(it[2]) == 2 and not enum:
+                if enum and not self._answers_enumerate_index(x[2][1]):
+                    return out
+                if it[0] == "call" and cn(it[1]) == "core::slice::windows" and len(it[2]) == 2:
                     # windows(k) yields len - k + 1 items (len >= k), position() answers an index of one of them: i + k <= len
                     idx = self.tb.project(x, [("dc", 1, "Some"), ("f", 0, "0", "usize")])
                     out.append(("cmp", "Le", ("bin", "Add", idx, it[2][1], "usize"), ("len", it[2][0])))
         return out
+
+    def _answers_enumerate_index(self, clo):
+        """the closure handed to find_map over enumerate() answers, whenever it answers Some, the index component of its
+        argument: find_map's payload is then the index of an item of the enumerated iterator"""
+        try:
+            from . import select as SEL, an, chain as CH
+            cf = SEL.closure_fn(self.tb.F, N(clo), self.body.fn)
+            if cf is None:
+                return False
+            C = an.of(self.tb.F, cf)
+            exs = CH.exits(C)
+            somes = [e for e in exs if e.kind == "Some"]
+            others = [e for e in exs if e.kind not in ("Some", "None")]
+            if not somes or others:
+                rt, _ = C.ret()
+                r = N(rt) if rt is not None else None
+                # a single joined return: ite(c, Some(idx), None)
+                if r is not None and r[0] == "ite":
+                    leaves = [r[2], r[3]]
+                    ok = True
+                    for lf in leaves:
+                        if lf[0] == "aggr" and lf[1][:3] == ("adt", "core::option::Option", "Some"):
+                            ok = ok and lf[2][0] == ("fld", ("arg", 2), 0)
+                        elif not (lf[0] == "aggr" and lf[1][:3] == ("adt", "core::option::Option", "None")):
+                            ok = False
+                    return ok
+                return False
+            return all(e.payload is not None and N(e.payload) == ("fld", ("arg", 2), 0) for e in somes)
+        except Exception:
+            return False
 
     def dominating_edges(self, B):
         """edges (d, s, label) such that every path entry->B takes the edge"""
@@ -195,6 +227,7 @@ class Guards:
             fs += self.edge_facts(d, s, lab)
         fs += self.merge_facts(B)
         fs += type_invariants(self.tb)
+        fs += self.counter_facts(B)
         # flatten conjunctions produced by `&&` lowered to nested switches is automatic
         out = []
         for f in fs:
@@ -202,6 +235,103 @@ class Guards:
                 out.append(f)
         self._facts_memo[B] = out
         return out
+
+    def counter_facts(self, B):
+        """loop invariants of counting loops: a local L with `L = c0` before the loop and one `L = L + c1` (c1 > 0) per iteration,
+        executed only under a guard `L + k <= E` (E loop-invariant, with a numeric upper bound U), satisfies at every point of
+        the loop  L <= max(c0, U - k + c1):  it is c0 on the first arrival at the head, and afterwards the previous value
+        passed the guard before c1 was added.  What the overflow check of `L + k` at the loop head needs."""
+        b = self.body
+        if getattr(self, "_in_counter", False):
+            return []
+        loops = {}
+        for (t, h) in b.back_edges():
+            loops.setdefault(h, set()).update(b.loop_blocks(h, t))
+        mine = [h for h, blk in loops.items() if B in blk]
+        if not mine:
+            return []
+        self._in_counter = True
+        try:
+            out = []
+            cache = self.__dict__.setdefault("_counter_cache", {})
+            for h in mine:
+                if h not in cache:
+                    cache[h] = self._counters_of(h, loops[h])
+                for (L, bound) in cache[h]:
+                    term = self.tb.read(L, (), (B, 0))
+                    out.append(("cmp", "Le", term, T.C(bound)))
+            return out
+        finally:
+            self._in_counter = False
+
+    def _counters_of(self, h, blocks):
+        b, tb = self.body, self.tb
+        latches = [t for (t, hh) in b.back_edges() if hh == h]
+        res = []
+        for L, defs in tb.defs.items():
+            whole = [d for d in defs if not d[3]]
+            if len(whole) != 2 or len(defs) != 2 or any(d[0] != "stmt" for d in whole):
+                continue
+            if L in tb.escaped or any(tl == L for tgts in tb.mutrefs.values() for (tl, _tp) in tgts):
+                continue        # mutably borrowed: something else may change it
+            ins = [d for d in whole if d[1] in blocks]
+            outs = [d for d in whole if d[1] not in blocks]
+            if len(ins) != 1 or len(outs) != 1 or not b.dominates(outs[0][1], h):
+                continue
+            st0 = b.stmts(outs[0][1])[outs[0][2]]
+            v0 = N(tb.rvalue(st0["rv"], (outs[0][1], outs[0][2]), st0))
+            if v0[0] != "c":
+                continue
+            ub = ins[0][1]
+            st1 = b.stmts(ub)[ins[0][2]]
+            v1 = N(tb.rvalue(st1["rv"], (ub, ins[0][2]), st1))
+            if not (v1[0] == "bin" and v1[1] in ("Add", "AddUnchecked")):
+                continue
+            phi, c1 = (v1[2], v1[3]) if v1[3][0] == "c" else (v1[3], v1[2])
+            if not (c1[0] == "c" and c1[1] > 0 and phi[0] == "opq" and len(phi) > 2 and phi[1] == "phi" and phi[2] == L):
+                continue
+            if not all(b.dominates(ub, t) for t in latches):
+                continue
+            best = None
+            for (d, s_, lab) in self.dominating_edges(ub):
+                if d not in blocks or b.term(d)["k"] != "switch":
+                    continue
+                c = self.edge_condition(d, s_, lab)
+                if c is None:
+                    continue
+                conds = [N(c)]
+                try:
+                    from . import slices as SL
+                    conds = SL.norm_facts([N(c)], None)
+                except Exception:
+                    pass
+                for f in conds:
+                    if f[0] != "cmp" or f[1] not in ("Le", "Lt", "Ge", "Gt"):
+                        continue
+                    try:
+                        lf = lin(f[2]).add(lin(f[3]), -1)
+                    except Exception:
+                        continue
+                    op = f[1]
+                    if op in ("Ge", "Gt"):
+                        lf, op = lf.scale(-1), {"Ge": "Le", "Gt": "Lt"}[op]
+                    if lf.m.get(phi) != 1:
+                        continue
+                    # L + k + (rest) <= 0  with rest = -E
+                    k = lf.c + (1 if op == "Lt" else 0)
+                    E = Lin(0, {a_: -c_ for a_, c_ in lf.m.items() if a_ != phi})
+                    if any("opq" in repr(a_) for a_ in E.m):
+                        continue
+                    neg = E.scale(-1)
+                    mv = min_value(neg)        # -E >= mv  =>  E <= -mv
+                    if mv is None:
+                        continue
+                    U = -mv
+                    bound = max(v0[1], U - k + c1[1])
+                    best = bound if best is None else min(best, bound)
+            if best is not None:
+                res.append((L, best))
+        return res
 
     def merge_facts(self, B):
         """disjunctive facts at merge points on B's dominator chain: a block with 2..4 forward predecessors
